@@ -1243,6 +1243,7 @@ func checkC19(e *Engine, r *Report) {
 		fNS := e.Field(pkgCfgBL, "BalloonDef", "Namespaces")
 		fRPN := e.Field(pkgCfgBL, "Config", "ReservedPoolNamespaces")
 		okSys, okRPN := false, false
+		sysStores, rpnStores := map[ssa.Instruction]bool{}, map[ssa.Instruction]bool{}
 		for _, f2 := range WithAnon(fb) {
 			AllInstrs(f2, func(in ssa.Instruction) {
 				st, ok := in.(*ssa.Store)
@@ -1264,19 +1265,15 @@ func checkC19(e *Engine, r *Report) {
 					}
 					if f, _ := loadedField(v); f == fRPN {
 						okRPN = true
+						if f2 == fb {
+							rpnStores[st] = true
+						}
 					}
-					if sl, ok := v.(*ssa.Slice); ok {
-						if al, ok := sl.X.(*ssa.Alloc); ok {
-							for _, ref := range *al.Referrers() {
-								if ia, ok := ref.(*ssa.IndexAddr); ok {
-									for _, r2 := range *ia.Referrers() {
-										if s2, ok := r2.(*ssa.Store); ok {
-											if s, ok := constString(s2.Val); ok && s == "kube-system" {
-												okSys = true
-											}
-										}
-									}
-								}
+					for _, el := range sliceLiteralElems(v) {
+						if s, ok := constString(el); ok && s == "kube-system" {
+							okSys = true
+							if f2 == fb {
+								sysStores[st] = true
 							}
 						}
 					}
@@ -1289,7 +1286,42 @@ func checkC19(e *Engine, r *Report) {
 				walk(st.Val, 0)
 			})
 		}
-		r.Check("R5:reserved-type-namespaces", "selection order", "the reserved type's namespaces include kube-system and the configured ReservedPoolNamespaces", e.Pos(fb.Pos()), fb, okSys && okRPN,
-			fmt.Sprintf("kube-system=%v reservedPoolNamespaces=%v", okSys, okRPN), true)
+		// on every successful path, whatever the configuration says (the two additions are unconditional)
+		wNS := fmt.Sprintf("kube-system=%v reservedPoolNamespaces=%v", okSys, okRPN)
+		for _, set := range []struct {
+			name string
+			m    map[ssa.Instruction]bool
+		}{{"kube-system", sysStores}, {"ReservedPoolNamespaces", rpnStores}} {
+			set := set
+			if len(set.m) == 0 {
+				continue
+			}
+			// a membership test that mentions kube-system is taken as "not yet listed" (adding it only when absent is fine)
+			notListed := func(cond ssa.Value) (bool, bool) {
+				neg := false
+				if u, ok := cond.(*ssa.UnOp); ok && u.Op == token.NOT {
+					cond, neg = u.X, true
+				}
+				c, ok := cond.(*ssa.Call)
+				if !ok {
+					return false, false
+				}
+				for _, a := range c.Common().Args {
+					if s, ok := constString(a); ok && s == "kube-system" {
+						return true, neg
+					}
+				}
+				return false, false
+			}
+			if p := FindPath(PathQuery{Fn: fb, Assume: notListed, Block: func(in ssa.Instruction) bool { return set.m[in] }, Target: func(in ssa.Instruction) bool {
+				ret, ok := in.(*ssa.Return)
+				return ok && e.maySucceed(ret)
+			}}); p != nil {
+				okSys, okRPN = false, false
+				wNS = set.name + " is not added on the path " + e.pathString(p)
+			}
+		}
+		r.Check("R5:reserved-type-namespaces", "selection order", "the reserved type's namespaces include kube-system and the configured ReservedPoolNamespaces on every successful path", e.Pos(fb.Pos()), fb, okSys && okRPN,
+			wNS, true)
 	}
 }
